@@ -7,7 +7,9 @@ LEVEL_TEXT = _rtc.MIXED
 EXPLANATION = ("proved: the solver-object protocol of FullFrontend (15 obligations over a ghost backend: the solver object handed to the backend always holds "
                "the constraints, a shared solver object is cloned before it is extended, answers are returned unchanged, UnsatError / ClaripyFrontendError "
                "exactly when the backend's answer says so, max/min pre-constrain soundly); SatCacheMixin (10 methods) and ModelCacheMixin (min, max, eval, solution, satisfiable, _add) each preserve their cache "
-               "invariant and answer per specification, in isolation over a finite universe; bounded: operation histories on Solver, "
+               "invariant and answer per specification, in isolation over a finite universe; the seven thin mixins of the Solver stack (ConstraintExpansion, SimplifyHelper, "
+               "SimplifySkipper, ConstraintDeduplicator, ConstraintFilter, ConcreteHandler, EagerResolution: 31 obligations) answer per the same public specification, "
+               "change the model set only as the operation says and keep their own invariant; _trivial_model_optimization under contract; bounded: operation histories on Solver, "
                "SolverCacheless, SolverStrings (reuse on/off) judged by a stateless reference")
 TECHNIQUE = "mixin-in-isolation deductive proofs (pyvc, z3) + bounded run-time contracts on histories"
 RULE = _rtc.RTC_RULE
@@ -16,12 +18,15 @@ FUNCTIONS = ["SatCacheMixin." + m for m in ["satisfiable", "check_satisfiability
             ["ModelCacheMixin." + m for m in ["min", "max", "eval", "batch_eval", "solution", "satisfiable", "_add", "_get_models", "_get_solutions", "_model_hook"]] + \
             ["BackendZ3._extrema", "BackendZ3._batch_eval"] + \
             ["FullFrontend." + m for m in ["_get_solver", "_add_constraints", "_add", "_copy", "_blank_copy", "simplify", "downsize", "satisfiable", "check_satisfiability",
-                                           "eval", "batch_eval", "solution", "is_true", "is_false", "max", "min", "unsat_core"]]
+                                           "eval", "batch_eval", "solution", "is_true", "is_false", "max", "min", "unsat_core"]] + \
+            ["ModelCacheMixin._trivial_model_optimization", "ModelCacheMixin.split", "ModelCacheMixin.combine"] + \
+            [f"{mx}.{m}" for mx, ms in __import__("vf.contracts.layers", fromlist=["METHODS"]).METHODS.items() for m in ms]
 TRUSTED = _rtc.RTC_TRUSTED + ["contract of the stack below each mixin (vf/contracts/mixins.py: Spec, MSpec), incl. BackendZ3._extrema's model-callback behaviour",
                                "contract of ModelCache.eval_ast (value of the expression under the cached model)"]
 ASSUMPTIONS = ["FullFrontend protocol: reuse_z3_solver off (the reuse mode is a recorded finding); the single-constraint shortcut of check_satisfiability is covered by the bounded part",
                "mixins are parametric in the constraint language: proofs are over a universe of 8 (SatCache) / 4 (ModelCache) assignments and 2-bit values",
-               "ModelCacheMixin.update/split/combine and _trivial_model_optimization are not under contract (bounded part only)",
+               "ModelCacheMixin.update is not under contract (bounded part only); split/combine are proved under C15",
+               "thin mixins: hash() of a constraint identifies it (C06); the one recorded input class (a constant expression queried on an unsatisfiable constraint set, rtc:concrete/answers-on-unsat) is excluded from ConcreteHandlerMixin's clauses",
                "per-layer contracts compose to histories by induction (stated, not mechanised)"]
 
 
@@ -29,6 +34,9 @@ def tasks(tier, seed=0):
     from vf.contracts import mixins
     out = [task(M, "ob_satcache", f"mixin.SatCacheMixin.{m}/spec+inv", ["C11", "C16"], method=m, tier=tier) for m in mixins.QUERY]
     out += [task(M, "ob_modelcache", f"mixin.ModelCacheMixin.{m}/spec+inv", ["C11"], method=m, tier=tier) for m in mixins.MC_METHODS]
+    out.append(task(M, "ob_modelcache_trivial", "mixin.ModelCacheMixin._add[variable==constant]/spec+inv", ["C11"], tier=tier))
+    from vf.contracts import layers
+    out += layers.all_tasks(tier)
     Z = "vf.contracts.z3solve"
     out += [task(Z, "ob_batch_eval", "z3solve._batch_eval/state-restored+results", ["C17", "C14", "C11"], tier=tier),
             task(Z, "ob_extrema", "z3solve._extrema/true-optimum", ["C11", "C17"], tier=tier)]
